@@ -1490,6 +1490,11 @@ static cJSON_bool parse_array(cJSON * const item, parse_buffer * const input_buf
             current_item = new_item;
         }
 
+        if (cannot_access_at_index(input_buffer, 1))
+        {
+            goto fail; /* nothing comes after the comma */
+        }
+
         /* parse next value */
         input_buffer->offset++;
         buffer_skip_whitespace(input_buffer);
@@ -1646,6 +1651,11 @@ static cJSON_bool parse_object(cJSON * const item, parse_buffer * const input_bu
             current_item->next = new_item;
             new_item->prev = current_item;
             current_item = new_item;
+        }
+
+        if (cannot_access_at_index(input_buffer, 1))
+        {
+            goto fail; /* nothing comes after the comma */
         }
 
         /* parse the name of the child */
